@@ -122,6 +122,7 @@ func (d *MsgPipeline) Start(ctx context.Context, msgMeta *module.MsgMetadata, ma
 		d:                  d,
 		rcptModifiersState: make(map[*rcptBlock]module.ModifierState),
 		deliveries:         make(map[module.DeliveryTarget]*delivery),
+		rewrittenRcpts:     make(map[string]string),
 		msgMeta:            msgMeta,
 		log:                target.DeliveryLogger(d.Log, msgMeta),
 	}
@@ -279,6 +280,11 @@ type msgpipelineDelivery struct {
 	msgMeta     *module.MsgMetadata
 	checkRunner *checkRunner
 
+	// Rewritten recipient -> recipient as passed to AddRcpt, only for
+	// rewrites done by this pipeline. msgMeta.OriginalRcpts is shared with
+	// the pipelines the message passed before and passes after this one.
+	rewrittenRcpts map[string]string
+
 	// Set if BodyNonAtomic was used.
 	nonAtomic bool
 }
@@ -353,6 +359,7 @@ func (dd *msgpipelineDelivery) AddRcpt(ctx context.Context, to string, opts smtp
 
 			if originalTo != to {
 				dd.msgMeta.OriginalRcpts[to] = originalTo
+				dd.rewrittenRcpts[to] = originalTo
 			}
 
 			for _, tgt := range rcptBlock.targets {
@@ -509,7 +516,7 @@ func (dd *msgpipelineDelivery) BodyNonAtomic(ctx context.Context, c module.Statu
 		partDelivery, ok := delivery.Delivery.(module.PartialDelivery)
 		if ok {
 			partDelivery.BodyNonAtomic(ctx, statusCollector{
-				originalRcpts: dd.msgMeta.OriginalRcpts,
+				originalRcpts: dd.rewrittenRcpts,
 				wrapped:       c,
 			}, header, body)
 			continue
